@@ -199,6 +199,14 @@ class AST:
                 walk(c, n, new_ns, new_rec)
 
         walk(self.root, None, [], None)
+        # out-of-line definitions of members of non-template classes sit at namespace scope: their
+        # semantic parent is given by parentDeclContextId
+        for fid, owner in list(self.fn_owner.items()):
+            if owner is None:
+                n = self.ids.get(fid)
+                pc = n.get('parentDeclContextId') if n else None
+                if pc and pc in self.recs:
+                    self.fn_owner[fid] = self.recs[pc]
         for r in self.recs.values():
             self._fill_rec(r)
 
@@ -224,7 +232,12 @@ class AST:
 
     def _targ(self, c):
         if 'value' in c:
-            return ('value', int(c['value']))
+            v = int(c['value'])
+            # clang's JSON prints unsigned char arguments >= 128 as negative numbers while type strings
+            # spell them as character literals: normalise to 0..255
+            if -128 <= v < 0:
+                v += 256
+            return ('value', v)
         if 'type' in c:
             return ('type', canon_type(c['type'].get('desugaredQualType') or c['type']['qualType'], keep_top_cv=True))
         if c.get('isPack') or c.get('isPack') is not None:
